@@ -473,4 +473,70 @@ theorem C01_lex_spaced_example (c d : Char) (n m : List Char) (hc : isNameStart 
   · exact Delim_int d m hm
   · exact Delim_ops.2.2.2.2.2.1
 
+/-! ### String literals -/
+
+theorem strLen_plain (body rest : List Char) (hb : ∀ c ∈ body, c ≠ '"' ∧ c ≠ '\\')
+    (hr : ∀ c r, rest = c :: r → c ≠ '"') :
+    strLen (body ++ '"' :: rest) = some (body.length + 1) := by
+  induction body with
+  | nil =>
+    cases rest with
+    | nil => simp [strLen]
+    | cons c r =>
+      have := hr c r rfl
+      simp only [List.nil_append, List.length_nil, Nat.zero_add]
+      unfold strLen
+      split
+      all_goals first
+        | rfl
+        | (rename_i heq; simp only [List.cons.injEq] at heq; exact absurd heq.2.1.symm this)
+        | (rename_i heq; simp only [List.cons.injEq] at heq; exact absurd heq.1 (by decide))
+        | (rename_i hx heq; simp only [List.cons.injEq] at heq; exact absurd heq.1.symm hx)
+        | (exfalso; simp_all; done)
+  | cons a body ih =>
+    have ha := hb a (by simp)
+    have ih' := ih (fun c hc => hb c (by simp [hc]))
+    simp only [List.cons_append, List.length_cons]
+    unfold strLen
+    split
+    · simp_all
+    · simp_all
+    · simp_all
+    · simp_all
+    · simp_all
+    · rename_i h1 h2 h3 h4 h5
+      simp_all
+
+/-- A string literal without quotes and backslashes inside, followed by anything but another quote,
+    is one DQUOTA_STRING token: its text is the literal with both quotes. -/
+theorem C01_lex_string (body rest : List Char) (hb : ∀ c ∈ body, c ≠ '"' ∧ c ≠ '\\')
+    (hr : ∀ c r, rest = c :: r → c ≠ '"') :
+    lexOne ('"' :: body ++ '"' :: rest) = some (⟨.string, '"' :: body ++ ['"']⟩, rest) := by
+  have hl : lexLen ('"' :: (body ++ '"' :: rest)) = some (.string, 1 + (body.length + 1)) := by
+    simp [lexLen, isWs, isNameStart, Char.isAlpha, Char.isUpper, Char.isLower, Char.isDigit,
+      strLen_plain body rest hb hr]
+  unfold lexOne
+  rw [show '"' :: body ++ '"' :: rest = '"' :: (body ++ '"' :: rest) from rfl, hl]
+  have hpos : 0 < 1 + (body.length + 1) ∧ 1 + (body.length + 1) ≤ ('"' :: (body ++ '"' :: rest)).length := by
+    simp; omega
+  simp only []
+  rw [if_pos hpos]
+  have e1 : ('"' :: (body ++ '"' :: rest)) = ('"' :: body ++ ['"']) ++ rest := by simp
+  have e2 : 1 + (body.length + 1) = ('"' :: body ++ ['"']).length := by simp; omega
+  rw [e1, e2, List.take_left, List.drop_left]
+
+/-- Plain string literals are self-delimiting (so they may appear in `C01_lex_spaced` texts). -/
+theorem Delim_string (body : List Char) (hb : ∀ c ∈ body, c ≠ '"' ∧ c ≠ '\\') :
+    Delim ⟨.string, '"' :: body ++ ['"']⟩ := by
+  refine ⟨fun rest => ?_, fun h => K.noConfusion h⟩
+  have := C01_lex_string body (' ' :: rest) hb (fun c r h => by
+    have : c = ' ' := by simpa using (List.cons.inj h).1.symm
+    subst this; decide)
+  have e : ('"' :: body ++ ['"']) ++ ' ' :: rest = '"' :: body ++ '"' :: (' ' :: rest) := by simp
+  show lexOne (('"' :: body ++ ['"']) ++ ' ' :: rest) = _
+  rw [e]; exact this
+
+example : tokens (spaced [⟨.string, "\"ab c\"".toList⟩, ⟨.plus, ['+']⟩, ⟨.string, "\"\"".toList⟩]) =
+    [⟨.string, "\"ab c\"".toList⟩, ⟨.plus, ['+']⟩, ⟨.string, "\"\"".toList⟩] := by decide
+
 end GV.Props.C01l
